@@ -407,13 +407,36 @@ impl Fk {
         if let Some(n) = &self.name {
             fk.name(n.as_str());
         }
-        fk.from_tbl(a(table));
-        for c in &self.cols {
-            fk.from_col(a(c));
-        }
-        fk.to_tbl(a(&self.ref_table));
-        for c in &self.ref_cols {
-            fk.to_col(a(c));
+        // the column lists accumulate over from()/to() (table + column) and from_col()/to_col() calls
+        match crate::apply::route(3) {
+            0 if self.cols.len() == self.ref_cols.len() => {
+                // pair by pair
+                for (c, r) in self.cols.iter().zip(&self.ref_cols) {
+                    fk.from(a(table), a(c));
+                    fk.to(a(&self.ref_table), a(r));
+                }
+            }
+            1 if !self.cols.is_empty() && !self.ref_cols.is_empty() => {
+                fk.from(a(table), a(&self.cols[0]));
+                for c in &self.cols[1..] {
+                    fk.from_col(a(c));
+                }
+                fk.to_col(a(&self.ref_cols[0]));
+                for c in &self.ref_cols[1..] {
+                    fk.to(a(&self.ref_table), a(c));
+                }
+                fk.to_tbl(a(&self.ref_table));
+            }
+            _ => {
+                fk.from_tbl(a(table));
+                for c in &self.cols {
+                    fk.from_col(a(c));
+                }
+                fk.to_tbl(a(&self.ref_table));
+                for c in &self.ref_cols {
+                    fk.to_col(a(c));
+                }
+            }
         }
         if let Some(x) = self.on_delete {
             fk.on_delete(x);
